@@ -115,7 +115,7 @@ def run_history(ins, outs, steps, semantic=None):
         if c.model_proto is not None and semantic is not None:
             # a model built later in a history must be as good as one built first: placement, multiplicity and values
             from harness import c01, c04
-            pp = c04.placement_oracle(c.model_proto)
+            pp = [] if c04.inline_with_unused_input(c) else c04.placement_oracle(c.model_proto)
             if pp:
                 problems.append(("C12/rebuild-misplaced", f"step {si}: " + pp[0][:200], si))
             sp = c01.semantic_oracle(c, semantic, trials=1)
